@@ -312,6 +312,24 @@ int main(int argc, char** argv) {
         o.key("iter").i(solv.iteration()).key("time").str(dstr(solv.time()));
         o.key("T_reached").b(solv.time() >= gp.simulation_duration_);
         o.key("ncells").i(solv.cells().size());
+        // C15: a digest of the final state of every cell (bit patterns of positions and momenta, connectivity)
+        o.key("digest").arr();
+        for (auto& cp : solv.cells()) {
+            unsigned long long h = 1469598103934665603ULL;
+            auto eat = [&](const void* p, size_t n) { const unsigned char* b = (const unsigned char*)p; for (size_t i = 0; i < n; i++) { h ^= b[i]; h *= 1099511628211ULL; } };
+            for (auto& nd : cell_tester::nodes(*cp)) {
+                const bool u = nd.is_used(); eat(&u, sizeof u);
+                if (!u) continue;
+                eat(&nd.pos(), sizeof(vec3));
+#if DYNAMIC_MODEL_INDEX == 0
+                eat(&nd.momentum(), sizeof(vec3));
+#endif
+            }
+            for (auto& fc : cell_tester::faces(*cp)) { const bool u = fc.is_used(); eat(&u, sizeof u); if (u) { auto t = cell_tester::tri(fc); eat(t.data(), sizeof(unsigned) * 3); } }
+            char buf[40]; snprintf(buf, sizeof buf, "%u:%016llx", cp->get_id(), h);
+            o.str(buf);
+        }
+        o.end_arr();
         o.key("ts1").i(S["ts1"].i());        // floor(T/S)+1, computed exactly by the scenario generator
         for (const char* sub : {"cell_data", "face_data"}) {
             std::set<long> nums;
